@@ -549,7 +549,7 @@ class LLSWorld(World):
         if not isinstance(xr, np.ndarray) or xr.size != n:
             raise Violation("result_shape", site, 0, {"type": type(xr).__name__})
         xv = xr.astype(np.complex128).ravel()
-        if not np.all(np.isfinite(xv.view(float))):
+        if not np.all(np.isfinite(xv)):
             raise Violation("result_not_finite", site, 0, {})
         tol = 1e-6 * (F0 - Fs + 1.0)
         infeas = 0.0
